@@ -223,6 +223,9 @@ struct Ctx {
     /// exact initial system (for "satisfies the original equalities")
     a0: Vec<Vec<Q>>,
     b0: Vec<Q>,
+    /// Absolute float slack: 1e-12 x the largest magnitude in the initial data. An entry
+    /// that is exactly 0 after cancelling 1e7-sized numbers is 0 only to about 1e-9 in f64.
+    slack: f64,
 }
 
 impl Ctx {
@@ -247,6 +250,11 @@ fn close(x: f64, q: Q) -> bool {
     (x - e).abs() <= TOL * e.abs().max(1.0)
 }
 
+fn close_s(x: f64, q: Q, slack: f64) -> bool {
+    let e = q.to_f64();
+    (x - e).abs() <= TOL * e.abs().max(1.0) + slack
+}
+
 /// Float state against the exact state, plus the state invariants of the property.
 fn check_state(ctx: &mut Ctx, t: &Tableau, r: &Exact, at: &str) {
     ctx.states += 1;
@@ -265,7 +273,7 @@ fn check_state(ctx: &mut Ctx, t: &Tableau, r: &Exact, at: &str) {
     // 2. equivalence: the float tableau is the exact row-equivalent tableau
     for i in 0..a.len() {
         for j in 0..c.len() {
-            if !close(a[i][j], r.a[i][j]) {
+            if !close_s(a[i][j], r.a[i][j], ctx.slack) {
                 ctx.v(
                     "equivalence",
                     format!("{at}: a[{i}][{j}] = {} but row operations from the initial system give {}", a[i][j], r.a[i][j]),
@@ -273,7 +281,7 @@ fn check_state(ctx: &mut Ctx, t: &Tableau, r: &Exact, at: &str) {
                 return;
             }
         }
-        if !close(b[i], r.b[i]) {
+        if !close_s(b[i], r.b[i], ctx.slack) {
             ctx.v(
                 "equivalence",
                 format!("{at}: b[{i}] = {} but row operations from the initial system give {}", b[i], r.b[i]),
@@ -282,7 +290,7 @@ fn check_state(ctx: &mut Ctx, t: &Tableau, r: &Exact, at: &str) {
         }
     }
     for j in 0..c.len() {
-        if !close(c[j], r.c[j]) {
+        if !close_s(c[j], r.c[j], ctx.slack) {
             ctx.v(
                 "equivalence",
                 format!("{at}: reduced cost c[{j}] = {} but exact value is {}", c[j], r.c[j]),
@@ -290,7 +298,7 @@ fn check_state(ctx: &mut Ctx, t: &Tableau, r: &Exact, at: &str) {
             return;
         }
     }
-    if !close(t.current_value(), r.value) {
+    if !close_s(t.current_value(), r.value, ctx.slack) {
         ctx.v(
             "objective-value",
             format!("{at}: current_value = {} but exact value is {}", t.current_value(), r.value),
@@ -300,7 +308,7 @@ fn check_state(ctx: &mut Ctx, t: &Tableau, r: &Exact, at: &str) {
     for (row, col) in t.in_basis().iter().enumerate() {
         for i in 0..a.len() {
             let want = if i == row { 1.0 } else { 0.0 };
-            if (a[i][*col] - want).abs() > TOL {
+            if (a[i][*col] - want).abs() > TOL + ctx.slack {
                 ctx.v(
                     "unit-column",
                     format!("{at}: basic column {col} (row {row}) has a[{i}][{col}] = {}", a[i][*col]),
@@ -308,7 +316,7 @@ fn check_state(ctx: &mut Ctx, t: &Tableau, r: &Exact, at: &str) {
                 return;
             }
         }
-        if c[*col].abs() > TOL {
+        if c[*col].abs() > TOL + ctx.slack {
             ctx.v(
                 "unit-column",
                 format!("{at}: basic column {col} has reduced cost {}", c[*col]),
@@ -318,7 +326,7 @@ fn check_state(ctx: &mut Ctx, t: &Tableau, r: &Exact, at: &str) {
     }
     // 4. basic solution non-negative and satisfies the *initial* equalities
     for (i, bi) in b.iter().enumerate() {
-        if *bi < -TOL {
+        if *bi < -(TOL + ctx.slack) {
             ctx.v(
                 "feasibility",
                 format!("{at}: basic variable of row {i} is negative ({bi})"),
@@ -831,6 +839,7 @@ pub fn run_tableau_case(case: &TableauCase) -> TableauRun {
         states: 0,
         a0: Vec::new(),
         b0: Vec::new(),
+        slack: 0.0,
     };
     let finish = |ctx: Ctx| TableauRun {
         trace_hash: fnv(&ctx.trace),
@@ -924,6 +933,14 @@ pub fn run_tableau_case(case: &TableauCase) -> TableauRun {
     }
     ctx.a0 = r0.a.clone();
     ctx.b0 = r0.b.clone();
+    ctx.slack = 1e-12
+        * r0.a
+            .iter()
+            .flatten()
+            .chain(r0.b.iter())
+            .chain(r0.c.iter())
+            .map(|q| q.to_f64().abs())
+            .fold(0.0, f64::max);
     // canonical start
     {
         let m = r0.a.len();
@@ -1351,7 +1368,20 @@ fn gen_canonical(rng: &mut Rng) -> TableauSource {
         let big = *rng.pick(&[100_000.0, 1_000_000.0, 2_000_000.0]);
         c[j] = if rng.chance(1, 2) { big } else { -big };
     }
-    else if rng.chance(1, 6) {
+    else if rng.chance(1, 7) {
+        // a big-M style row: one row multiplied through by 1e5..1e7 (an equivalent system,
+        // exact in f64). When it is the pivot row, the elimination factors of the other
+        // rows are 1e-5 and smaller while the quantities they multiply are pivot-sized.
+        let k = *rng.pick(&[100_000.0, 1_000_000.0, 10_000_000.0]);
+        let i = rng.usize(0, m - 1);
+        for v in a[i].iter_mut() {
+            *v *= k;
+        }
+        b[i] *= k;
+        // its basic column must stay a unit column: rescale that column's cost-free slack
+        // by dividing the column back (the basic variable is measured in units of k)
+        a[i][basis[i]] = 1.0;
+    } else if rng.chance(1, 6) {
         // large right-hand sides that differ by a unit or two: ratios of magnitude 1e5+
         // whose differences are tiny relative to their size and plain in absolute terms
         // (all exact in f64)
